@@ -187,7 +187,7 @@ package pongo2
 //@   at IEvaluator.Evaluate requires {C12} @values-in-outer-scope arg1 == ctx
 //@   at (*NodeWrapper).Execute requires {C12} @body-in-child arg1 == withctx && withctx != ctx
 //@ func (*tagMacroNode).call
-//@   at mapupdate requires {C12,C13} @own-scope (m == argsCtx || m == macroCtx.Private) && m != ctx.Private
+//@   at mapupdate requires {C12,C13} @own-scope m != ctx.Private && m != ctx.Public && fresh(m)
 //@   at (*NodeWrapper).Execute requires {C12,C13} @body-in-child arg1 == macroCtx && macroCtx != ctx
 //@ func (tagBlockInformation).Super
 //@   at mapupdate requires {C12} @own-scope m == superCtx.Private && m != t.ctx.Private
@@ -566,3 +566,43 @@ package pongo2
 //@   at math.Round requires {C18} @ratio-times-width arg0 == VFloat(current) / VFloat(max) * VFloat(width)
 //@   at mapupdate requires {C18} @stores-rounded-value m == ctx.Private && k == node.ctxName && v == box(toint(lastresult("math.Round")))
 //@   at fmt.Sprintf requires {C18} @prints-rounded-value len(arg1) == 1 && arg1[0] == box(toint(lastresult("math.Round")))
+
+// ---- macros (C13) ----
+// the recursion counter of a context is restored by every function (incremented on entry of a macro call,
+// decremented by its deferred function), so it counts the macro calls currently active on the context
+//@ preserved {C13} ExecutionContext.macroDepth
+//@ func (*tagMacroNode).call$1
+//@   flag unbalanced
+//@   requires ctx.macroDepth > 0
+//@   assigns ctx.macroDepth
+//@   ensures ctx.macroDepth == old(ctx.macroDepth) - 1
+//@ func (*tagMacroNode).call
+//@   requires {C13} @entered-with-sane-depth 0 <= ctx.macroDepth && ctx.macroDepth <= maxMacroDepth
+//@   at (*NodeWrapper).Execute requires {C13} @depth-guarded 0 < ctx.macroDepth && ctx.macroDepth <= maxMacroDepth
+//@   at (*NodeWrapper).Execute requires {C13} @not-with-too-many-arguments len(args) <= len(node.argsOrder)
+//@   at mapupdate#0 requires {C13} @defaults-for-declared-parameters m == argsCtx && has(node.args, k)
+//@   at mapupdate#1 requires {C13} @defaults-for-declared-parameters m == argsCtx && has(node.args, k)
+//@   at mapupdate#2 requires {C13} @positional-binding m == macroCtx.Private && 0 <= idx && idx < len(node.argsOrder) && k == node.argsOrder[idx] && v == VInterface(argValue) && argValue == args[idx]
+//@   ensures {C13} @too-many-arguments-is-an-error len(args) > len(node.argsOrder) ==> r1 != nil
+//@   ensures {C13,C02} @result-is-escaped-markup r0 != nil ==> r0.safe
+//@ func (*Value).Interface
+//@   pure as VInterface
+// the function values stored under a macro's name are called through reflection; the induction hypothesis of the
+// depth argument (a context's counter is between 0 and the limit whenever a macro is entered) is their precondition
+//@ func (*tagMacroNode).Execute$1
+//@   requires 0 <= ctx.macroDepth && ctx.macroDepth <= maxMacroDepth
+//@ func (*tagImportNode).Execute$1$1
+//@   requires 0 <= ctx.macroDepth && ctx.macroDepth <= maxMacroDepth
+// parameters are recorded in source order, each with its default expression (or none); an import binds the
+// alias to the very macro node exported by the other template
+//@ func tagMacroParser
+//@   at append[string] requires {C13} @parameters-in-source-order elem == argNameToken.Val
+//@   at mapupdate#0 requires {C13} @default-for-that-parameter m == macroNode.args && k == argNameToken.Val && v == argDefaultExpr
+//@   at mapupdate#1 requires {C13} @no-default m == macroNode.args && k == argNameToken.Val && v == nil
+//@   at mapupdate#2 requires {C13} @export-registers-this-macro m == doc.template.exportedMacros && k == macroNode.name && v == macroNode && macroNode.exported && !has(doc.template.exportedMacros, macroNode.name)
+//@ func tagImportParser
+//@   at mapupdate requires {C13} @alias-is-the-exported-macro m == importNode.macros && k == asName && has(tpl.exportedMacros, macroNameToken.Val) && v == tpl.exportedMacros[macroNameToken.Val]
+//@ func (*tagImportNode).Execute$1$1
+//@   at (*tagMacroNode).call requires {C13} @same-call-as-local arg0 == macro && arg1 == ctx
+//@ func (*tagMacroNode).Execute$1
+//@   at (*tagMacroNode).call requires {C13} @same-call-as-local arg0 == node && arg1 == ctx
